@@ -607,8 +607,17 @@ impl Recovery {
         let live_segments;
 
         if let Some((start, end)) = live_segments_indices {
-            live_segments = self.candidates.drain(start..=end).collect::<Vec<_>>();
-            nonlive_segments = mem::take(&mut self.candidates);
+            // The segments are unlinked one at a time and the process may die in between. Order
+            // the removals so that the IDs remaining on disk are contiguous at every point
+            // (otherwise the next recovery bails on a gap): oldest first below the live range,
+            // newest first above it.
+            let after = self.candidates.split_off(end + 1);
+            live_segments = self.candidates.split_off(start);
+            let before = mem::take(&mut self.candidates);
+            nonlive_segments = before
+                .into_iter()
+                .chain(after.into_iter().rev())
+                .collect::<Vec<_>>();
         } else {
             live_segments = Vec::new();
             nonlive_segments = mem::take(&mut self.candidates);
